@@ -3,7 +3,7 @@
 ID="$1"; P="$2"; T="${3:-quick}"; HERE="$(cd "$(dirname "$0")/.." && pwd)"
 S=/tmp/sbx-seed-$ID-$$
 "$HERE/tools/mksandbox.sh" $S >/dev/null || exit 2
-git -C $S/repo apply "$HERE/seeded/$ID/patch.diff" || { echo "patch does not apply"; "$HERE/tools/rmsandbox.sh" $S; exit 2; }
+PF="$HERE/seeded/$ID/patch.diff"; [ -z "$SBX_REPO_COMMIT" ] && [ -f "$HERE/seeded/$ID/patch.head.diff" ] && PF="$HERE/seeded/$ID/patch.head.diff"; git -C $S/repo apply "$PF" || { echo "patch does not apply"; "$HERE/tools/rmsandbox.sh" $S; exit 2; }
 ( cd $S/verif && VERIF_REPO=$S/repo timeout 3000 ./check $P $T > $S/out.txt 2>&1; echo "exit=$?" >> $S/out.txt )
 grep -E "^VIOLATION|^failing input|^no longer checks|exit=| -> (OK|VIOLATION)$" $S/out.txt | cut -c1-300
 mkdir -p "$HERE/.build/seeded-logs"; cp $S/out.txt "$HERE/.build/seeded-logs/$ID-$P-$T.txt"
